@@ -5,6 +5,10 @@ HERE = os.path.dirname(os.path.dirname(os.path.abspath(__file__)))
 
 # id -> (technique, level text, level note, design ref)
 CHECKS = {
+ "C09": ("totality fuzzing by generated token soups and snippet programs under catch_unwind with a semantic error-location oracle; exhaustive vocabulary pairs; saved crash inputs as a replay tier",
+         "Random soups (0-40 elements) over every installed primitive, user macros, braces, #, numbers at and beyond every limit (register indices, character codes incl. surrogates, 2^31 boundaries), units, keywords, ^^ forms, non-ASCII text, file names incl. areas, ~100 snippet programs (the stdlib's own 50 error cases + a valid use of every primitive family), truncated at any byte, under all five interaction modes; every pair of vocabulary items exhaustively. Ok, or an error whose Display is non-empty and whose traces have line>=1 and column<=line length; any panic (todo!, unwrap, overflow, slice, shutdown protocol) is a violation.",
+         "Trusted: catch_unwind with the harness panic hook, the harness state type (same components as StdLibState, in-memory file system, scripted terminal, expansion budget 3000), proptest. \\sleep/\\dumpFormat/\\dumpValidate not installed; \\newIntArray only with small sizes; the \\tracingmacros printing hook is not called.",
+         "DESIGN.md §4 C09"),
  "C08": ("differential PBT: the same VM<StdLibState> continued without a checkpoint vs serialised+deserialised (JSON / MessagePack / bincode), plus the concatenated program in a fresh VM",
          "Random (P1,P2,format): P1 = prefix of a generated scoping history (open groups with saved values, registers, aliases, macros incl. active characters, catcode/mathcode, \\endlinechar, \\globaldefs) plus extras (\\newInt/\\newIntArray, parameter macros, fresh names, open \\openin streams, open conditionals of four kinds, \\let of primitives/characters, \\mathchardef, token lists with control sequences, active-character definitions); P2 observes all of it, continues the history, closes every group and conditional and reads every target. Token-exact output and error title of P2 must be identical with and without the checkpoint; (de)serialisation panics are violations.",
          "Trusted: serde_json / rmp-serde / bincode, the capture handlers, proptest. Quick tier: one format per case (rotating); thorough: all three per case. Terminal input and error-recovery modes are not exercised (StdLibState prints to stdout there).",
